@@ -582,11 +582,122 @@ def check_c18(tier, seed):
     return 1 if nviol else 0
 
 
+# ------------------------------------------------------------------ C11
+
+def check_c11(tier, seed):
+    import c11
+    t0 = time.time()
+    sc = vlib.Scratch()
+    sc.prepare()
+    testbin = sc.build("./simbubble", "simbubble.test", go=vlib.GO126, test=True)
+    fails = c11.failures(sc)
+    rd = lambda p: open(os.path.join(sc.src, p)).read()
+    job = {"seed": seed, "k": 1 if tier == "quick" else 12, "profile": rd("test/data/integration/profile1/profile.yaml"), "data": rd("test/data/integration/profile1/negative.data.jsonld"),
+           "entries": c11.ENTRIES, "failures": fails, "caps": c11.CAPS, "consumers": c11.CONSUMERS,
+           "event_names": sc.census["event_types"], "operations": sc.census["operations"]}
+    results = c11.run_bubbles(sc, testbin, job, vlib.NCPU)
+    harness = [r for r in results if r.get("harness")]
+    if harness:
+        raise HarnessError("bubble could not be left cleanly: %s (cell %s)" % (harness[0]["harness"][:500], json.dumps(harness[0]["cell"])[:300]))
+    # fault-free reference per entry (defines the pipeline order; must itself be complete, bracketed and closed)
+    ff, ffsteps = {}, {}
+    for r in results:
+        c = r["cell"]
+        if c["failure"]["id"] == "none":
+            key = c["entry"]
+            if key not in ff or len(r["events"] or []) > len(ff[key]):
+                ff[key] = r["events"] or []
+            k2 = (c["entry"], c["consumer"], c["cap"])
+            ffsteps[k2] = max(ffsteps.get(k2, 0), r["steps"])
+    known = vlib.load_known("C11")
+    by_sig = {}
+    stats = {"failed_at_stage": {}, "probes": {}, "fail_fired": 0, "deadlocks_seen": 0, "sim_ns": 0, "steps": 0}
+    sigs = set()
+    for r in results:
+        c = r["cell"]
+        stats["sim_ns"] += r["sim_ns"]
+        stats["steps"] += r["steps"]
+        stats["fail_fired"] += 1 if r.get("fail_fired") else 0
+        for k, v in (r.get("probes") or {}).items():
+            stats["probes"][k] = stats["probes"].get(k, 0) + v
+        if c["failure"]["id"] != "none":
+            last = (r["events"] or ["-"])[-1]
+            key = c["failure"]["id"] + " -> " + last
+            stats["failed_at_stage"][key] = stats["failed_at_stage"].get(key, 0) + 1
+        if c["failure"]["id"] != "none" or c["consumer"] != "eager":
+            sigs.add(hashlib.sha256(json.dumps([c["entry"], c["failure"]["id"], c["cap"], c["consumer"], c["mcap"], r["choices"], r["dts"]]).encode()).hexdigest()[:16])
+        for cls, sd, text in c11.judge(r, ff.get(c["entry"]), sc.census["operations"], ffsteps.get((c["entry"], c["consumer"], c["cap"]))):
+            sig = "%s:%s:%s" % (cls, sd, c["failure"]["id"])
+            by_sig.setdefault(sig, []).append((r, text))
+    nviol = 0
+    rdir = vlib.out_dir("replays")
+    for sig, items in sorted(by_sig.items()):
+        km = vlib.match_known(known, sig)
+        if km:
+            print("KNOWN-FINDING: property=C11 %s (%s; %d runs)" % (km[1], sig, len(items)), flush=True)
+            continue
+        if nviol >= 4:
+            log("further violation signature:", sig, "(%d runs)" % len(items))
+            continue
+        # minimal witness: fewest scheduler steps; then try the simplest schedule (always release the first parked, 1 ns steps)
+        r, text = min(items, key=lambda x: x[0]["steps"])
+        cell = dict(r["cell"], choices=r["choices"], dts=r["dts"])
+        simple = dict(r["cell"], choices=[0] * (r["steps"] + 8), dts=[1] * (r["steps"] + 8))
+        chosen = None
+        for cand in (simple, cell):
+            ok = 0
+            for _ in range(2):
+                rr = c11.run_bubbles(sc, testbin, dict(job, replay=cand), 1)
+                if rr and any(("%s:%s:%s" % (cls, sd, rr[0]["cell"]["failure"]["id"])) == sig for cls, sd, _ in c11.judge(rr[0], ff.get(cand["entry"]), sc.census["operations"], ffsteps.get((cand["entry"], cand["consumer"], cand["cap"])))):
+                    ok += 1
+            if ok == 2:
+                chosen = cand
+                break
+        if chosen is None:
+            raise HarnessError("C11 violation %s does not replay from its recorded decisions" % sig)
+        rf = {"property": "C11", "engine": "B-bubble", "seed": seed, "tree": sc.tree_hash, "cell": chosen, "violation": {"class": sig.split(":")[0], "sig": sig, "detail": text},
+              "events": r["events"], "returned": r.get("returned"), "replays": {"attempts": 2, "recurred": 2}}
+        path = os.path.join(rdir, "C11-%s.json" % hashlib.sha256(sig.encode()).hexdigest()[:10])
+        json.dump(rf, open(path, "w"), indent=1)
+        print("VIOLATION property=C11 replay=%s" % path, flush=True)
+        log("  %s: %s [entry=%s cap=%d consumer=%s events=%s returned=%s] (%d runs)" % (sig, text, chosen["entry"], chosen["cap"], chosen["consumer"], r["events"], r.get("returned"), len(items)))
+        nviol += 1
+    wall = time.time() - t0
+    cells = len(c11.ENTRIES) * len(fails) * len(c11.CAPS) * len(c11.CONSUMERS)
+    cov = {
+        "evaluations": len(results),
+        "distinct_nontrivial": len(sigs),
+        "rule": ("cells = entry point (%d) x failure (%d: none, real failing inputs per stage, forced error at every generated failpoint in pkg and internal/validator) x event channel capacity (0,1,3,64) x consumer (eager, lagging, real GenerateMilestonesFromEvents + gated milestone reader); "
+                 "all %d cells are enumerated, K seeded schedules and clock-step sequences per cell. Oracle: bracketing, prefix of the fault-free event list of the same tree, closed exactly once when the validating call returns (open after a successful stand-alone compile), no deadlock at quiescence, bounded steps, one milestone per completed stage with duration >= 0. "
+                 "Non-trivial: a failure was injected or the consumer was scheduled by the simulator; distinct = hash of (cell, release choices, clock steps).") % (len(c11.ENTRIES), len(fails), cells),
+        "samples": [{"cell": {k: v for k, v in r["cell"].items() if k != "failure"}, "failure": r["cell"]["failure"]["id"], "events": r["events"], "returned": r.get("returned"), "closed": r.get("closed"),
+                     "milestones": r.get("milestones"), "choices": r["choices"][:40], "clock_steps_ns": r["dts"][:40]} for r in results if r["cell"]["failure"]["id"] != "none"][:2],
+        "cells": cells, "cells_enumerated": cells, "schedules_per_cell": job["k"], "exhaustive": False,
+        "fault_kinds_fired": {"forced_stage_error": stats["fail_fired"], "real_failing_input_runs": sum(1 for r in results if r["cell"]["failure"]["kind"] == "input"),
+                              "consumer_lag_runs": sum(1 for r in results if r["cell"]["consumer"] != "eager"), "full_buffer_send": stats["probes"].get("send_released_with_full_buffer", 0),
+                              "close_with_buffered_events": stats["probes"].get("close_with_events_still_buffered", 0), "clock_steps": stats["steps"]},
+        "failure_to_last_event": stats["failed_at_stage"],
+        "probes": stats["probes"], "probes_never_hit": [p for p in ("send_released_with_full_buffer", "close_with_events_still_buffered") if not stats["probes"].get(p)],
+        "simulated_time": {"unit": "fake-clock seconds", "value": round(stats["sim_ns"] / 1e9, 1)},
+        "scheduler_steps": stats["steps"],
+        "runs_per_hour": int(len(results) / wall * 3600), "seeds_per_hour": int(len(results) / wall * 3600),
+        "fault_free_event_lists": ff,
+        "components": COMPONENTS, "tree_hash": sc.tree_hash,
+        "failpoint_sites": [f["site"] for f in fails if f["kind"] == "failpoint"],
+    }
+    vlib.write_evidence("C11", tier, seed, "fault_enumeration", cov, wall, nviol,
+                        ["event and operation names are read from pkg/events and pkg/milestones of the tree under test; Start/Done pairing is by name",
+                         "inputs on which the library panics for reasons other than channel misuse are not in the catalogue (C17 is not claimed); if one panics, the consumer left blocked is still reported as never_closed",
+                         "a forced error at a failpoint overwrites the error variable after the stage has really run; report building can only be failed this way",
+                         "Go 1.26.8 testing/synctest: fake clock and quiescence detection; which goroutine proceeds is decided by the driver's PRNG at the gates"])
+    return 1 if nviol else 0
+
+
 def free_running_pass(sc, racebin, plain, seed):
     return {"violations": 0, "note": "not built yet"}
 
 
-CHECKS = {"C18": check_c18, "C04": check_c04, "C06": check_c06, "C09": check_c09, "C10": check_c10}
+CHECKS = {"C11": check_c11, "C18": check_c18, "C04": check_c04, "C06": check_c06, "C09": check_c09, "C10": check_c10}
 
 
 def main():
@@ -596,7 +707,15 @@ def main():
         return 2
     try:
         if args[0] == "setup":
+            # build the instrumenter and warm the Go build cache for every kind of build the checks make
             vlib.build_instrumenter()
+            sc = vlib.Scratch()
+            sc.prepare(plain=True)
+            sc.build("./simharness", "simharness")
+            sc.build("./cmd", "simacv")
+            sc.build("./cmd", "acv-plain", plain=True)
+            sc.build("./simharness", "simharness-race", race=True)
+            sc.build("./simbubble", "simbubble.test", go=vlib.GO126, test=True)
             return 0
         if args[0] == "--replay":
             import replay
